@@ -33,6 +33,8 @@ class Ctx:
             "seq": lambda x: list(x) if x is not None else None,
             "fresh": lambda x: True,
             "same": self._same,
+            # now(old(e)): the live object that the pre-state value e refers to (old() is evaluated on a deep copy)
+            "now": lambda x: self.alias.get(id(x), x),
             "utf8": lambda s: s.encode("utf8"),
             "valid_utf8": _valid_utf8,
             "wit": lambda x: True,
